@@ -762,6 +762,10 @@ func c04SigLayer(t *testing.T, layer string, n int) {
 			class = "method-not-covered"
 		}
 		c04SigCase(m, idx, g, ks, r, class)
+		if m.ViolCount() > 60 {
+			m.Note("stopped after %d violations", m.ViolCount())
+			return
+		}
 		if idx%500 == 0 {
 			m.Progress()
 		}
@@ -850,17 +854,30 @@ func TestVerifC04EngineJwtAndSignature(t *testing.T) {
 				}
 				m.Count(fmt.Sprintf("both.want_%d", wantStatus), 1)
 				cls := jc + "+" + sc
+				// signature names the component whose verdict was not honoured
+				part := "jwt:" + jc
+				if jw == c04Admit {
+					part = "signature:" + sc
+				}
 				switch {
 				case wantStatus == http.StatusOK && ran != 1:
-					m.Violate("C04:both:engine:rejected-valid:"+cls, desc, "both verifiers accept (%s / %s) but handler did not run; status %d", jwhy, swhy, status)
+					part = "jwt:" + jc
+					if status == http.StatusForbidden {
+						part = "signature:" + sc
+					}
+					m.Violate("C04:both:engine:rejected-valid:"+part, desc, "both verifiers accept (%s / %s) but handler did not run; status %d", jwhy, swhy, status)
 				case wantStatus != http.StatusOK && ran != 0:
-					m.Violate("C04:both:engine:admitted-invalid:"+cls, desc, "jwt verdict %s, signature verdict %s, yet the handler ran (status %d)", jwhy, swhy, status)
+					m.Violate("C04:both:engine:admitted-invalid:"+part, desc, "jwt verdict %s, signature verdict %s, yet the handler ran (status %d)", jwhy, swhy, status)
 				case status != wantStatus:
-					m.Violate("C04:both:engine:wrong-status:"+cls, desc, "jwt verdict %s, signature verdict %s: status %d, want %d", jwhy, swhy, status, wantStatus)
+					m.Violate("C04:both:engine:wrong-status:"+part, desc, "jwt verdict %s, signature verdict %s: status %d, want %d", jwhy, swhy, status, wantStatus)
 				case wantStatus == http.StatusOK:
 					if bad := c04CheckClaims(req, custom); bad != "" {
-						m.Violate("C04:both:engine:claims-not-visible:"+cls, desc, "%s", bad)
+						m.Violate("C04:both:engine:claims-not-visible:"+part, desc, "%s", bad)
 					}
+				}
+				if m.ViolCount() > 40 {
+					m.Note("stopped after %d violations", m.ViolCount())
+					return
 				}
 				m.Case(vk.Digest("both", cls, j.Auth, q.CS), true)
 				if m.WantSample() && idx%17 == 3 {
